@@ -278,9 +278,14 @@ Proof.
 Qed.
 (* ---------- the counts, stated with the reference: no model-side evaluation in the hypotheses ---------- *)
 Definition nitems (X : list (lelem * nat)) : nat :=
-  length (filter (fun xk => match fst xk with LInstr _ | LEqu _ _ _ _ => true | _ => false end) X).
+  length (filter (fun xk => match fst xk with LInstr _ | LEqu _ _ _ _ => true | LComment c => has_prefix (s2t ";assert") c | _ => false end) X).
 Lemma r2_length org0 its0 X : renders_doc2 spell org0 its0 X -> length its0 = nitems X.
-Proof. unfold nitems. induction 1; cbn [filter fst length]; try rewrite IHrenders_doc2; reflexivity. Qed.
+Proof.
+  unfold nitems. induction 1 as [|org1 l its1 t k es1 _ _ IH|org1 c k its1 es1 Hc _ IH|e kw cmt k its1 es1 _ _ _ IH|org1 n e labs kw cmt k its1 es1 _ _ _ _ IH|org1 c e k its1 es1 [Hp _] _ IH];
+    cbn [filter fst length]; try (rewrite IH; reflexivity); try reflexivity.
+  - unfold comment_plain in Hc. rewrite Hc. exact IH.
+  - rewrite Hp. cbn [length]. rewrite IH. reflexivity.
+Qed.
 
 (* each count is written as the rendering of an expression whose reference value, over the EQU definitions among
    the items in front of the block, is the number of copies *)
@@ -328,7 +333,7 @@ Proof.
       rewrite Eits, equs_app, map_app in N1. apply nodup_app_l in N1. exact N1. }
   assert (Henv : env_nn (equs its1)).
   { clear - R1. intros id d H. apply env_find_entry in H.
-    induction R1 as [|org0 l its0 t k es0 _ _ IHr|org0 c k its0 es0 _ _ IHr|e kw cmt k its0 es0 _ _ _ IHr|org0 n0 e0 labs kw cmt k its0 es0 _ _ Hnn0 _ IHr];
+    induction R1 as [|org0 l its0 t k es0 _ _ IHr|org0 c k its0 es0 _ _ IHr|e kw cmt k its0 es0 _ _ _ IHr|org0 n0 e0 labs kw cmt k its0 es0 _ _ Hnn0 _ IHr|org0 c e1 k its0 es0 _ _ IHr];
       cbn [equs] in H; try (apply IHr; exact H); [destruct H|].
     destruct H as [H|H]; [inversion H; subst; exact Hnn0|apply IHr; exact H]. }
   assert (Hrk1 : ranked spell (equs its1) rkN).
